@@ -330,7 +330,14 @@ fn policyset_ops(req: &J) -> J {
         let resp = Authorizer::new().is_authorized(&basic_request(), &ps, &Entities::empty());
         let mut reasons: Vec<String> = resp.diagnostics().reason().map(|p| p.to_string()).collect();
         reasons.sort();
-        steps.push(json!({"ok": res.is_ok(), "err": res.err(), "policies": policies, "templates": templates, "links": links, "reasons": reasons}));
+        // the links index as seen through get_linked_policies, for every id of the universe (not only the live templates)
+        let mut by_id = serde_json::Map::new();
+        for i in req["universe"].as_array().cloned().unwrap_or_default() {
+            let i = i.as_str().unwrap_or("").to_string();
+            let l: J = match ps.get_linked_policies(PolicyId::new(i.clone())) { Ok(it) => { let mut v: Vec<String> = it.map(|p| p.to_string()).collect(); v.sort(); json!(v) } Err(_) => json!("<error>") };
+            by_id.insert(i, l);
+        }
+        steps.push(json!({"ok": res.is_ok(), "err": res.err(), "policies": policies, "templates": templates, "links": links, "reasons": reasons, "linked_by_id": by_id}));
     }
     json!({"steps": steps})
 }
